@@ -251,6 +251,31 @@ func runC20(c *Ctx) {
 		c.Check(strings.HasSuffix(w.Expr(cv.Call.Args[0]), "yubiagent.read>(p1)#0[const(1)]"), "R3.loop", "ServeAgent|wait arm waits for the requested code", w.Pos(cv.Pos()), "agent.Wait(req[1])", "the wait arm does not wait on the second request byte: "+w.Short(cv.Call.Args[0]))
 	}
 	c.Floor("R3.loop", nWait, 1, "agent.Wait invoke in ServeAgent")
+	// a wait request never crashes the service: the index / slice / assertion obligations of the code that runs only
+	// for the wait code (the arm of the agent.Wait invoke) are discharged like C12's
+	{
+		var waitSet bset
+		for _, cv := range w.invokeOfDeep(serve, "Wait") {
+			waitSet = wire.flow.At(cv)
+		}
+		nArm := 0
+		if !waitSet.empty() && !waitSet.full() {
+			var armFns []*ssa.Function
+			for _, tf := range w.Tree(serve) {
+				if tf == serve || w.transparent(tf) {
+					armFns = append(armFns, tf)
+				}
+			}
+			var sites []panicSite
+			for _, s := range w.BoundsObligations(armFns, commonJust) {
+				if wire.flow.At(s.Instr) == waitSet {
+					sites = append(sites, s)
+				}
+			}
+			nArm = reportSites(c, "R3.loop", sites)
+		}
+		c.Floor("R3.loop", nArm, 1, "index / slice obligations in the wait arm of ServeAgent")
+	}
 	// client request
 	if cw := w.Method(yubiPkg, "client", "Wait"); cw != nil {
 		c.Saw(cw)
